@@ -56,13 +56,20 @@ uint32_t xorshift128(struct xorshift128_state *state)
 /* one generator state per thread: cross-validation workers seed and draw concurrently */
 __thread uint32_t XOR128_SEED = 0;
 
+/* state 0 means "never seeded" (the draw functions then seed from the clock): a seeded stream must not land on it */
+static uint32_t next_state(uint32_t state)
+{
+  uint32_t next = generate_seed(state);
+  return (next != 0) ? next : 0x6C078965U;
+}
+
 void srand_(uint32_t seed)
 {
   #ifdef LIBSCIENTIFIC_VERIF
   if(libsci_verif_rng_hook != NULL)
     libsci_verif_rng_hook(0, seed);
   #endif
-  XOR128_SEED = generate_seed(seed);
+  XOR128_SEED = next_state(seed);
 }
 
 double rand_()
@@ -78,7 +85,7 @@ double rand_()
   state.x[1] = XOR128_SEED ^ 0x5a7b96158bd42e27ULL;
   state.x[2] = XOR128_SEED ^ 0x3a8e9f2baf7e592bULL;
   state.x[3] = XOR128_SEED ^ 0x0b243e4b4b2aa8d3ULL;
-  XOR128_SEED = generate_seed(XOR128_SEED);
+  XOR128_SEED = next_state(XOR128_SEED);
   return xorshift128(&state);
 }
 
@@ -95,7 +102,7 @@ int randInt(int low, int high)
   state.x[1] = XOR128_SEED ^ 0x5a7b96158bd42e27ULL;
   state.x[2] = XOR128_SEED ^ 0x3a8e9f2baf7e592bULL;
   state.x[3] = XOR128_SEED ^ 0x0b243e4b4b2aa8d3ULL;
-  XOR128_SEED = generate_seed(XOR128_SEED);
+  XOR128_SEED = next_state(XOR128_SEED);
   return (int) (xorshift128(&state) % ((high) - low) + low);
 }
 
@@ -115,7 +122,7 @@ double randDouble(double low, double high)
   state.x[1] = XOR128_SEED ^ 0x5a7b96158bd42e27ULL;
   state.x[2] = XOR128_SEED ^ 0x3a8e9f2baf7e592bULL;
   state.x[3] = XOR128_SEED ^ 0x0b243e4b4b2aa8d3ULL;
-  XOR128_SEED = generate_seed(XOR128_SEED);
+  XOR128_SEED = next_state(XOR128_SEED);
   double range = (high - low);
   double div = 4294967296.0 / range;
   return low + (xorshift128(&state) / div);
